@@ -205,8 +205,15 @@ def prove_parse_lemmas(timeout=20):
     return smt.run_many(parse_obligations(), timeout=timeout)
 
 
+def argnames_obligations():
+    def prop(name, call, P):
+        return '(= (seq.len %s) (ite (<= %s 0) 0 %s))' % (call, P['n'], P['n'])
+    return induction_obligations('L-ARGNAMES-LEN', ['control.smt2'], '(define-fun-rec argnames ', prop)
+
+
 def prove_clause_lemmas(timeout=20):
-    return smt.run_many(cnt_obligations() + literal_obligations() + hpnames_obligations() + ndepth_obligations(), timeout=timeout)
+    return smt.run_many(cnt_obligations() + literal_obligations() + hpnames_obligations() + ndepth_obligations() + argnames_obligations(),
+                        timeout=timeout)
 
 
 def _block_text(spec_file, marker):
